@@ -113,6 +113,107 @@ example : hdrFromValue (.map [(.int 9223372036854775808, .null)]) = .err .outOfR
   header_label_out_of_range _ _ _ (by decide)
 example : Timestamp.fromValue (.int (-9223372036854775808)) = .ok (.wholeSeconds (-9223372036854775808)) := by decide
 
+/-! ### the first fault in wire order decides the report (informed round 13: keys converted up front let a later bad key pre-empt an earlier
+    out-of-range integer) -/
+
+/-- if the entries up to and including `x` already make the header loop fail with `e`, no continuation `q` changes that. -/
+theorem headerLoop_first_fault (depth : Nat) (sf : Value → Res CoseSignature) (x : Value × Value) (q : List (Value × Value)) (e : CoseErr) :
+    ∀ (p : List (Value × Value)) (h : Header) (seen : List Label),
+      headerLoop depth sf (p ++ [x]) h seen = .err e → headerLoop depth sf (p ++ x :: q) h seen = .err e := by
+  intro p
+  induction p with
+  | nil =>
+    intro h seen hx
+    obtain ⟨l, value⟩ := x
+    simp only [List.nil_append, headerLoop] at hx ⊢
+    split at hx <;> try (simp_all; done)
+    split at hx <;> try (simp_all; done)
+    split at hx <;> try (simp_all; done)
+    split at hx <;> simp_all
+  | cons y p ih =>
+    intro h seen hx
+    obtain ⟨l, value⟩ := y
+    simp only [List.cons_append, headerLoop] at hx ⊢
+    split at hx <;> try (simp_all; done)
+    split at hx <;> try (simp_all; done)
+    split at hx <;> try (simp_all; done)
+    split at hx
+    · simp_all
+    · simp_all
+
+/-- … stated for the decoder: a header map that fails with `e` on a prefix fails with `e` however it continues — in particular an
+    out-of-range integer (a label, an algorithm, a critical label, a content format) is reported as out of range whatever follows it, and
+    a repeated label as a duplicate key. -/
+theorem header_first_fault_decides (fuel d : Nat) (p q : List (Value × Value)) (x : Value × Value) (e : CoseErr)
+    (h : Header.fromValue (fuel + 1) d (.map (p ++ [x])) = .err e) : Header.fromValue (fuel + 1) d (.map (p ++ x :: q)) = .err e := by
+  simp only [Header.fromValue, tryAsMap] at h ⊢
+  exact headerLoop_first_fault _ _ x q e p _ _ h
+
+/-- non-vacuity: `{1: 2^64-1}` fails as out of range, and so does `{1: 2^64-1, h'01': 0}` — not with the type error of the later key. -/
+example : Header.fromValue 3 16 (.map ([] ++ (Value.int 1, Value.int 18446744073709551615) :: [(Value.bytes [1], Value.int 0)])) = .err .outOfRange :=
+  header_first_fault_decides 2 16 [] _ _ _ (by rfl)
+
+/-- the same for key maps … -/
+theorem keyLoop_first_fault (x : Value × Value) (q : List (Value × Value)) (e : CoseErr) :
+    ∀ (p : List (Value × Value)) (k : CoseKey) (seen : List Label),
+      keyLoop (p ++ [x]) k seen = .err e → keyLoop (p ++ x :: q) k seen = .err e := by
+  intro p
+  induction p with
+  | nil =>
+    intro k seen hx
+    obtain ⟨l, value⟩ := x
+    simp only [List.nil_append, keyLoop] at hx ⊢
+    split at hx <;> try (simp_all; done)
+    split at hx <;> try (simp_all; done)
+    split at hx <;> simp_all
+  | cons y p ih =>
+    intro k seen hx
+    obtain ⟨l, value⟩ := y
+    simp only [List.cons_append, keyLoop] at hx ⊢
+    split at hx <;> try (simp_all; done)
+    split at hx <;> try (simp_all; done)
+    split at hx <;> simp_all
+
+theorem key_first_fault_decides (p q : List (Value × Value)) (x : Value × Value) (e : CoseErr)
+    (h : keyLoop (p ++ [x]) CoseKey.default [] = .err e) : CoseKey.fromValue (.map (p ++ x :: q)) = .err e := by
+  simp only [CoseKey.fromValue, tryAsMap, keyLoop_first_fault x q e p _ _ h]
+
+/-- … and for claims sets (a repeated claim name is reported as a duplicate key whatever follows it). -/
+theorem claimsLoop_first_fault (x : Value × Value) (q : List (Value × Value)) (e : CoseErr) :
+    ∀ (p : List (Value × Value)) (c : ClaimsSet) (seen : List RegLabelPriv),
+      claimsLoop (p ++ [x]) c seen = .err e → claimsLoop (p ++ x :: q) c seen = .err e := by
+  intro p
+  induction p with
+  | nil =>
+    intro c seen hx
+    obtain ⟨l, value⟩ := x
+    simp only [List.nil_append, claimsLoop] at hx ⊢
+    split at hx <;> try (simp_all; done)
+    split at hx <;> try (simp_all; done)
+    split at hx <;> simp_all
+  | cons y p ih =>
+    intro c seen hx
+    obtain ⟨l, value⟩ := y
+    simp only [List.cons_append, claimsLoop] at hx ⊢
+    split at hx <;> try (simp_all; done)
+    split at hx <;> try (simp_all; done)
+    split at hx <;> simp_all
+
+theorem claims_first_fault_decides (p q : List (Value × Value)) (x : Value × Value) (e : CoseErr)
+    (h : ClaimsSet.fromValue (.map (p ++ [x])) = .err e) : ClaimsSet.fromValue (.map (p ++ x :: q)) = .err e := by
+  simp only [ClaimsSet.fromValue] at h ⊢
+  exact claimsLoop_first_fault x q e p _ _ h
+
+/-- non-vacuity: `{1: "a", 1: "b"}` is a duplicate key, and so is `{1: "a", 1: "b", 100: 0}` — not the unregistered name that follows. -/
+example : ClaimsSet.fromValue (.map ([(Value.int 1, Value.text [97])] ++ (Value.int 1, Value.text [98]) :: [(Value.int 100, Value.int 0)])) = .err .duplicateMapKey :=
+  claims_first_fault_decides _ _ _ _ (by rfl)
+
+#print axioms headerLoop_first_fault
+#print axioms header_first_fault_decides
+#print axioms keyLoop_first_fault
+#print axioms key_first_fault_decides
+#print axioms claimsLoop_first_fault
+#print axioms claims_first_fault_decides
 
 #print axioms narrow_i64
 #print axioms narrow_u64
